@@ -28,11 +28,29 @@ class _NumpyFamily:
         b[:] = (10 * np.arange(1, 2 * N + 1)).reshape(2, N)
         return dict(a=a, b=b, c=None)
 
+    def twins(self):
+        """the other class of the same shape: a sub-class of mesh for the plain mesh, another two-component class"""
+        from pySDC.implementations.datatype_classes.particles import acceleration
+        from pySDC.implementations.datatype_classes.mesh import imex_mesh, comp2_mesh
+        mc2 = comp2_mesh if self.f['mc'] is not comp2_mesh else imex_mesh
+        return acceleration, mc2
+
+    def comps_of(self, o):
+        from pySDC.implementations.datatype_classes.mesh import imex_mesh, comp2_mesh
+        if type(o) is self.f['mc']:
+            return self.f['comps']
+        return ('impl', 'expl') if type(o) is imex_mesh else ('comp1', 'comp2') if type(o) is comp2_mesh else ('diff', 'alg')
+
     def ty(self, o):
+        mesh2, mc2 = self.twins()
         if type(o) is self.f['mc']:
             return 'mc'
         if type(o) is self.f['mesh']:
             return 'mesh'
+        if type(o) is mesh2:
+            return 'mesh2'
+        if type(o) is mc2:
+            return 'mc2'
         return 'other:' + type(o).__name__
 
     def val(self, o):
@@ -49,6 +67,11 @@ class _NumpyFamily:
         x = st[1]
         if op == 'copy':
             env[x] = type(env[st[2]])(env[st[2]])
+        elif op == 'copyto':
+            mesh2, mc2 = self.twins()
+            y = env[st[2]]
+            other = {self.f['mesh']: mesh2, mesh2: self.f['mesh'], self.f['mc']: mc2, mc2: self.f['mc']}[type(y)]
+            env[x] = other(y)
         elif op == 'alias':
             env[x] = env[st[2]]
         elif op == 'add':
@@ -74,10 +97,10 @@ class _NumpyFamily:
         elif op == 'setitem':
             env[x].flat[0] = 7
         elif op == 'comp':
-            env[x] = getattr(env[st[2]], self.f['comps'][st[3]])
+            env[x] = getattr(env[st[2]], self.comps_of(env[st[2]])[st[3]])
         elif op == 'stride':
             y = env[st[2]]
-            env[x] = y[:, ::2] if type(y) is self.f['mc'] else y[::2]
+            env[x] = y[:, ::2] if np.asarray(y).ndim == 2 else y[::2]
         elif op == 'abs':
             r = abs(env[x])
             if not isinstance(r, float) or r != float(st[2]):
@@ -153,7 +176,7 @@ class _ParticleFamily:
     def supports(self, st):
         if st[0] == 'setpar':
             return self.kind == 'particles'
-        if st[0] in ('comp', 'setall', 'setitem', 'ufunc', 'out', 'augscalar', 'stride'):
+        if st[0] in ('comp', 'setall', 'setitem', 'ufunc', 'out', 'augscalar', 'stride', 'copyto'):
             return False
         if st[0] == 'scale' and st[3] == 'r':
             return False
